@@ -1156,4 +1156,271 @@ theorem asgs_partition (env : SpecEnv) (q : Query) (p : Path) (j k : Nat) (op no
   | neg => exact hnegq
   | all => simpa [triPick, onQuery_modNode_id] using h
 
+
+/-! ### the `@fold` case of `evalEdge`, named -/
+
+/-- The single assignment a fold contributes inside a missing scope. -/
+def foldMissing (a : Asg) (fds : List FDir) (names : List Name) : Asg :=
+  let a1 : Asg := { a with outs := a.outs ++ names.map fun n => (n, Value.null) }
+  fds.foldl (fun (acc : Asg) d =>
+    match d with
+    | .countOutput n => { acc with outs := acc.outs ++ [(n, Value.null)] }
+    | .countTag n => { acc with tags := acc.tags ++ [(n, Tagged.nonexistent)] }
+    | .countFilter _ _ => acc) a1
+
+/-- What a fold does with its elements: count tags, count filters, list outputs. -/
+def foldFinish (env : SpecEnv) (a : Asg) (v : Option VertexId) (fds : List FDir) (names : List Name)
+    (elems : List Asg) : R (List Asg) :=
+  let count := Value.uint64 (UInt64.ofNat elems.length)
+  let fs := fds.filterMap fun d => match d with | .countFilter op arg => some (op, arg) | _ => none
+  let aTags := fds.foldl (fun (acc : Asg) d =>
+    match d with
+    | .countTag n => { acc with tags := acc.tags ++ [(n, Tagged.some count)] }
+    | _ => acc) a
+  match filtersHold env aTags v count fs with
+  | .ok true =>
+    let lists := names.map fun n =>
+      (n, Value.list (elems.map fun (e : Asg) =>
+        match e.outs.find? (·.1 == n) with
+        | some (_, x) => x
+        | none => Value.null))
+    let countOuts := fds.filterMap fun d =>
+      match d with | .countOutput n => some (n, count) | _ => none
+    .ok [{ aTags with outs := aTags.outs ++ countOuts ++ lists }]
+  | .ok false => .ok []
+  | .panic s => .panic s
+  | .fuel => .fuel
+
+theorem evalEdge_fold (env : SpecEnv) (fuel : Nat) (owners : List Name) (name : Name)
+    (params : Params) (fds : List FDir) (child : QNode) (v : Option VertexId) (a : Asg) :
+    evalEdge env fuel owners name params (.fold fds) child v a =
+      match v with
+      | none => .ok [foldMissing a fds (outNames child)]
+      | some _ =>
+        match flatMapR (fun n => evalNode env fuel child (some n) { tags := a.tags, outs := [] })
+            (edgeNbrs env owners name params v) with
+        | .ok elems => foldFinish env a v fds (outNames child) elems
+        | .panic s => .panic s
+        | .fuel => .fuel := by
+  cases v with
+  | none =>
+    simp only [evalEdge, foldMissing]
+    congr 3
+  | some x =>
+    simp only [evalEdge, edgeNbrs]
+    cases flatMapR _ _ with
+    | ok elems =>
+      simp only [foldFinish]
+      cases filtersHold _ _ _ _ _ <;> rfl
+    | panic s => rfl
+    | fuel => rfl
+
+/-! ### recursion depth -/
+
+theorem sublist_flatMap_pointwise {α β : Type} (f g : α → List β) (l : List α)
+    (h : ∀ x, (f x).Sublist (g x)) : (l.flatMap f).Sublist (l.flatMap g) := by
+  induction l with
+  | nil => simp
+  | cons a l ih => simp only [List.flatMap_cons]; exact List.Sublist.append (h a) ih
+
+/-- Raising the depth bound only adds reachable vertices, in place. -/
+theorem reach_mono (d : Data) (e : Name) (ps : Params) {k k' : Nat} (h : k ≤ k') (v : VertexId) :
+    (reach d e ps k v).Sublist (reach d e ps k' v) := by
+  induction k generalizing k' v with
+  | zero =>
+    cases k' with
+    | zero => exact List.Sublist.refl _
+    | succ k' => simp only [reach]; exact List.Sublist.cons_cons v (List.nil_sublist _)
+  | succ k ih =>
+    cases k' with
+    | zero => omega
+    | succ k' =>
+      simp only [reach]
+      exact List.Sublist.cons_cons v (sublist_flatMap_pointwise _ _ _ (fun x => ih (by omega) x))
+
+theorem RelR_sub_of_eq (X : Bool → R (List Asg)) (h : X false = X true) : RelR subRel X := by
+  intro L hL
+  have h0 := hL false
+  rw [h, hL true] at h0
+  cases h0
+  show (L false).Sublist (L true)
+  rw [← ‹L true = L false›]
+  exact List.Sublist.refl _
+
+theorem flatMapR_sublist {α β : Type} (f : α → R (List β)) {l0 l1 : List α} (h : l0.Sublist l1)
+    {L0 L1 : List β} (h0 : flatMapR f l0 = .ok L0) (h1 : flatMapR f l1 = .ok L1) : L0.Sublist L1 := by
+  rw [(flatMapR_ok h0).2, (flatMapR_ok h1).2]
+  exact sublist_flatMap _ h
+
+theorem PropsFixed.setDepthF (d : Nat) : PropsFixed (setDepthF d) := by
+  refine ⟨fun _ _ => rfl, fun nm ps k c => ?_⟩
+  cases k <;> rfl
+
+theorem recurse_local (env : SpecEnv) (j : Nat) {d0 d1 : Nat} (hd : d0 ≤ d1) (t : QNode)
+    (fuel : Nat) (v : Option VertexId) (a : Asg) :
+    RelR subRel (fun i => evalNode env fuel
+      (pick (modField j (setDepthF d0)) (modField j (setDepthF d1)) i t) v a) := by
+  obtain ⟨ct, fields⟩ := t
+  cases fuel with
+  | zero => exact RelR_of_not_ok _ _ true (by simp [evalNode_zero])
+  | succ fuel =>
+    cases hj : fields[j]? with
+    | none =>
+      apply RelR_sub_of_eq
+      simp only [pick, modField]
+      rw [modify_eq_self fields j _ (by simp [hj]), modify_eq_self fields j _ (by simp [hj])]
+    | some fld =>
+      have := RelR_evalNode_modify subRel env fuel ct v (fun i => setDepthF (pick d0 d1 i))
+        (fun i => PropsFixed.setDepthF _) (fun _ => trivial) fields j fld hj ?_ a
+      · intro L hL
+        apply this L
+        intro i
+        cases i <;> exact hL _
+      · intro a'
+        cases fld with
+        | prop nm dirs => exact RelR_sub_of_eq _ rfl
+        | edge nm ps k c =>
+          cases k with
+          | recurse d =>
+            simp only [setDepthF, evalFields_single_edge]
+            apply RelR_flatMapR
+            intro a'' _
+            simp only [evalEdge_recurse]
+            cases v with
+            | none => exact RelR_sub_of_eq _ rfl
+            | some x =>
+              intro L hL
+              have h0 := hL false
+              have h1 := hL true
+              simp only [pick] at h0 h1
+              refine flatMapR_sublist _ ?_ h0 h1
+              simp only [reachDecl]
+              exact reach_mono _ _ _ hd _
+          | plain => exact RelR_sub_of_eq _ rfl
+          | optional => exact RelR_sub_of_eq _ rfl
+          | fold fds => exact RelR_sub_of_eq _ rfl
+
+theorem asgs_recurse_mono (env : SpecEnv) (q : Query) (p : Path) (j : Nat) {d0 d1 : Nat}
+    (hd : d0 ≤ d1) (hp : NoFoldPath p q.root) (as0 as1 : List Asg)
+    (h0 : asgs env (setRecurseDepth p j d0 q) = .ok as0)
+    (h1 : asgs env (setRecurseDepth p j d1 q) = .ok as1) : as0.Sublist as1 := by
+  obtain ⟨t, hdesc⟩ := noFold_descend hp
+  have := RelR_asgs subRel env false (fun _ _ _ _ => trivial)
+    (pick (modField j (setDepthF d0)) (modField j (setDepthF d1))) p q t hdesc
+    (fun fuel v a _ => recurse_local env j hd t fuel v a) (pick as0 as1)
+  apply this
+  intro i
+  cases i with
+  | false => exact h0
+  | true => exact h1
+
+/-- Rewriting the node at the end of a path with something that does not change it. -/
+theorem modNode_eq_self (f : QNode → QNode) (p : Path) (n t : QNode)
+    (hd : descend anyKind p n = some t) (hf : f t = t) : modNode f p n = n := by
+  induction p generalizing n with
+  | nil => simp only [descend, Option.some.injEq] at hd; subst hd; exact hf
+  | cons i p ih =>
+    obtain ⟨ct, fields⟩ := n
+    simp only [modNode]
+    congr 1
+    apply modify_eq_self
+    intro x hx
+    simp only [descend, hx] at hd
+    cases x with
+    | prop nm dirs => rfl
+    | edge nm ps k c =>
+      simp only [anyKind, if_true] at hd
+      simp [onChild, ih c hd]
+
+theorem setRecurseDepth_self (p : Path) (j d : Nat) (q : Query)
+    (h : kindAt p j q.root = some (.recurse d)) : setRecurseDepth p j d q = q := by
+  simp only [kindAt, fieldAt] at h
+  cases hd : descend anyKind p q.root with
+  | none => simp [hd] at h
+  | some t =>
+    simp only [hd] at h
+    simp only [setRecurseDepth, onQuery]
+    rw [modNode_eq_self _ p q.root t hd]
+    obtain ⟨ct, fields⟩ := t
+    simp only [modField]
+    congr 1
+    apply modify_eq_self
+    intro x hx
+    simp only [fieldsOf, hx] at h
+    cases x with
+    | prop nm dirs => rfl
+    | edge nm ps k c =>
+      simp only [Option.some.injEq] at h
+      subst h; rfl
+
+/-! ### `@optional` -/
+
+theorem PropsFixed.makeOptionalF : PropsFixed makeOptionalF := by
+  refine ⟨fun _ _ => rfl, fun nm ps k c => ?_⟩
+  cases k <;> rfl
+
+theorem optional_local (env : SpecEnv) (j : Nat) (t : QNode) (fuel : Nat) (v : Option VertexId)
+    (a : Asg) :
+    RelR subRel (fun i => evalNode env fuel (pick id (modField j makeOptionalF) i t) v a) := by
+  obtain ⟨ct, fields⟩ := t
+  cases fuel with
+  | zero => exact RelR_of_not_ok _ _ true (by simp [evalNode_zero])
+  | succ fuel =>
+    cases hj : fields[j]? with
+    | none =>
+      apply RelR_sub_of_eq
+      simp only [pick, modField, id]
+      rw [modify_eq_self fields j _ (by simp [hj])]
+    | some fld =>
+      have := RelR_evalNode_modify subRel env fuel ct v (fun i => pick id makeOptionalF i)
+        (fun i => by cases i; exact PropsFixed.id; exact PropsFixed.makeOptionalF)
+        (fun _ => trivial) fields j fld hj ?_ a
+      · intro L hL
+        apply this L
+        intro i
+        cases i with
+        | false =>
+          have := hL false
+          simp only [pick, id] at this ⊢
+          rw [modify_eq_self fields j _ (fun _ _ => rfl)]; exact this
+        | true => exact hL true
+      · intro a'
+        cases fld with
+        | prop nm dirs => exact RelR_sub_of_eq _ rfl
+        | edge nm ps k c =>
+          cases k with
+          | plain =>
+            simp only [pick, id, makeOptionalF, evalFields_single_edge]
+            apply RelR_flatMapR
+            intro a'' _
+            cases v with
+            | none =>
+              apply RelR_sub_of_eq
+              simp [pick, evalEdge_plain, evalEdge_optional, edgeNbrs, Data.nbrsOpt]
+            | some x =>
+              by_cases hn : (edgeNbrs env (ownersOf env (some x)) nm ps (some x)).isEmpty = true
+              · intro L hL
+                have h0 := hL false
+                simp only [pick, evalEdge_plain, List.isEmpty_iff.mp hn, flatMapR, R.ok.injEq] at h0
+                show (L false).Sublist (L true)
+                rw [← h0]; exact List.nil_sublist _
+              · apply RelR_sub_of_eq
+                simp [pick, evalEdge_plain, evalEdge_optional, hn]
+          | recurse d => exact RelR_sub_of_eq _ rfl
+          | optional => exact RelR_sub_of_eq _ rfl
+          | fold fds => exact RelR_sub_of_eq _ rfl
+
+theorem asgs_optional_keeps (env : SpecEnv) (q : Query) (p : Path) (j : Nat)
+    (hp : NoFoldPath p q.root) (as as' : List Asg) (h : asgs env q = .ok as)
+    (h' : asgs env (makeOptional p j q) = .ok as') : as.Sublist as' := by
+  obtain ⟨t, hdesc⟩ := noFold_descend hp
+  have := RelR_asgs subRel env false (fun _ _ _ _ => trivial)
+    (pick id (modField j makeOptionalF)) p q t hdesc
+    (fun fuel v a _ => optional_local env j t fuel v a) (pick as as')
+  apply this
+  intro i
+  cases i with
+  | false => simpa [pick, onQuery_modNode_id] using h
+  | true => exact h'
+
 end TF.SpecMeta
